@@ -254,11 +254,13 @@ class kLeastAbsErrorsCycles(walkmodel.AbstractWalkModelDiGraph):
     def _encode_leastabserrors_decomposition(self):
 
         # pi vars 
+        # pi[(u,v,i)] = (number of traversals of (u,v) by walk i) * (weight of walk i), so its upper bound
+        # is the per-edge repetition bound times the maximum weight (not just the maximum weight, as for paths)
         self.pi_vars = self.solver.add_variables(
             self.edge_indexes,
             name_prefix="pi",
             lb=0,
-            ub=self.w_max,
+            ub=[self.w_max * max(1, self.edge_upper_bounds[(u, v)]) for (u, v, i) in self.edge_indexes],
             var_type="integer" if self.weight_type == int else "continuous",
         )
         self.path_weights_vars = self.solver.add_variables(
@@ -271,11 +273,12 @@ class kLeastAbsErrorsCycles(walkmodel.AbstractWalkModelDiGraph):
 
         self.edge_indexes_basic = [(u,v) for (u,v) in self.G.edges() if (u,v) not in self.edges_to_ignore]
         
+        # A walk can traverse an edge several times, so also the error of an edge can exceed the maximum weight
         self.edge_errors_vars = self.solver.add_variables(
             self.edge_indexes_basic,
             name_prefix="ee",
             lb=0,
-            ub=self.w_max,
+            ub=[self.w_max * max(1, self.edge_upper_bounds[(u, v)]) for (u, v) in self.edge_indexes_basic],
             var_type="integer" if self.weight_type == int else "continuous",
         )
 
